@@ -580,8 +580,10 @@ func histString(h []op) string {
 // cache by the worker that owns it. Versions are capped so that the state space is finite.
 func stageH(c *vf.Ctx) {
 	capVer := 2
+	confEvery := int64(97) // share of histories also run with the stub executable (a process costs 10-25 ms here)
 	if c.Thorough() {
 		capVer = 3
+		confEvery = 1999
 	}
 	type node struct{ hist []op }
 	start := newSystem(false).m
@@ -613,7 +615,7 @@ func stageH(c *vf.Ctx) {
 					bad, at := runHistory(h)
 					c.Eval(1)
 					c.Distinct(histString(h))
-					if k%97 == 0 { // conformance of the process seam: the same history with the stub executable
+					if k%confEvery == 0 { // conformance of the process seam: the same history with the stub executable
 						realExec = true
 						bad2, at2 := runHistory(h)
 						realExec = false
